@@ -21,6 +21,7 @@ PLAN = {
         (3, 3, range(0, 8), 0.05),
         (4, 3, range(0, 6), 0.05), (4, 2, range(6, 10), 0.2),
         (5, 3, range(0, 6), 0.05),
+        (6, 5, range(0, 8), 0.2), (6, 4, range(8, 12), 0.2), (6, 3, range(12, 14), 0.05),
     ],
     "C12": [(3, 3, range(100, 112), 0.05), (0, 2, range(100, 108), 0.2)],
 }
@@ -33,6 +34,7 @@ SCENARIOS = {
     2: "feedback block (4 loops, input+output skips, mean) + dense, centred RMSprop with momentum",
     3: "4 dense layers, two skips out of one source, loop connection, 66 validation / 66 predict_batch inputs (2 chunks)",
     5: "deconvolution + five-filter convolution with dropout + dense, AdamW, 6 samples, batch 3",
+    6: "sweep: six dense 3-4-2 networks with dropout 0.5 and validation data trained as tasks of one parallel loop (one batch of 6 samples, 3 epochs); more tasks than workers, so a worker waiting inside one learn runs another network's learn nested",
     4: "dense 3-4-2, SGDM with dampening and decay, one batch of 24 samples (split trees with leaves of up to 3 samples)",
 }
 
